@@ -129,7 +129,7 @@ func VerifH_C14_RetryBudgetReuse() {
 // connection and the call returns that reply.
 func VerifH_C14_StaleThenHealthy() {
 	verifrt.Unwind(80)
-	verifrt.SchedBound(1)
+	verifrt.SchedBound(1 + verifrt.Tier) // thorough: one more deviation from the default schedule
 	t := NewReuseConnTransport(ReuseConnOpts{DialContext: func(ctx context.Context) (net.Conn, error) {
 		c := newVNetConn()
 		go vServe(c)
@@ -159,7 +159,7 @@ func VerifH_C14_StaleThenHealthy() {
 // returns once the caller's context is done – the calling goroutine is never blocked forever.
 func VerifH_C14_CallerDeadline_S3() {
 	verifrt.Unwind(80)
-	verifrt.SchedBound(2)
+	verifrt.SchedBound(2 + verifrt.Tier) // thorough: one more deviation from the default schedule
 	never := make(chan struct{})
 	// 0: dial never completes, 1: connects and stays silent, 2 (QUIC): connects, but the peer's stream allowance is used up
 	mode := verifrt.Choose("server", 3)
@@ -212,7 +212,7 @@ func VerifH_C14_CallerDeadline_S3() {
 // released at once (it does not wait for its own deadline).
 func VerifH_C14_ConnDeathWakesWaiters() {
 	verifrt.Unwind(80)
-	verifrt.SchedBound(1)
+	verifrt.SchedBound(1 + verifrt.Tier) // thorough: one more deviation from the default schedule
 	conn := newVNetConn()
 	isTCP := verifrt.Bool("tcp")
 	t := &PipelineTransport{opts: PipelineOpts{IsTCP: isTCP}}
@@ -252,7 +252,7 @@ var _ = dnsmsg.NewMsg
 // deadline. Both must return when their own context ends (the one that joined the dial as well).
 func VerifH_C14_JoinedDial_S3() {
 	verifrt.Unwind(80)
-	verifrt.SchedBound(2)
+	verifrt.SchedBound(2 + verifrt.Tier) // thorough: one more deviation from the default schedule
 	never := make(chan struct{})
 	stall := func(dctx context.Context) {
 		select {
@@ -298,7 +298,7 @@ func VerifH_C14_JoinedDial_S3() {
 // A healthy server is reachable: the exchange must still be retried and succeed, on a fresh connection.
 func VerifH_C14_StaleWriteFirst() {
 	verifrt.Unwind(80)
-	verifrt.SchedBound(1)
+	verifrt.SchedBound(1 + verifrt.Tier) // thorough: one more deviation from the default schedule
 	var conns []*vNetConn
 	t := NewPipelineTransport(PipelineOpts{IsTCP: true, DialContext: func(ctx context.Context) (net.Conn, error) {
 		c := newVNetConn()
@@ -322,7 +322,7 @@ func VerifH_C14_StaleWriteFirst() {
 // fresh connection and answered.
 func VerifH_C14_ParkedDialThenStale() {
 	verifrt.Unwind(80)
-	verifrt.SchedBound(1)
+	verifrt.SchedBound(1 + verifrt.Tier) // thorough: one more deviation from the default schedule
 	var conns []*vNetConn
 	gate := make(chan struct{})
 	t := NewReuseConnTransport(ReuseConnOpts{DialContext: func(ctx context.Context) (net.Conn, error) {
@@ -357,7 +357,7 @@ func VerifH_C14_ParkedDialThenStale() {
 // served on a fresh connection, every one returning without any deadline. UDP and TCP.
 func VerifH_C14_WornOutConnectionReplaced() {
 	verifrt.Unwind(120)
-	verifrt.SchedBound(1)
+	verifrt.SchedBound(1 + verifrt.Tier) // thorough: one more deviation from the default schedule
 	verifrt.NoTimers()
 	verifrt.CtxNoExpiry = true
 	verifrt.Expect("retired")
@@ -429,7 +429,7 @@ func vEchoServer(c *vNetConn, isTCP bool) {
 // connection to the healthy server and succeed — they are not left waiting.
 func VerifH_C14_SilentPooledConnection() {
 	verifrt.Unwind(160)
-	verifrt.SchedBound(1)
+	verifrt.SchedBound(1 + verifrt.Tier) // thorough: one more deviation from the default schedule
 	verifrt.NoTimers()
 	verifrt.CtxNoExpiry = true
 	verifrt.Expect("retried")
